@@ -427,7 +427,10 @@ def case_deepcopy(case, col=None):
         # objects reached through the copy belong to the copy
         for tag, fn in (("Quantity", lambda: cp.Quantity(1, "meter")), ("Unit", lambda: cp.Unit("second")), ("parse", lambda: cp.parse_expression("3 km")), ("attr", lambda: cp.kilogram),
                         ("sys.attr", lambda: cp.sys.cgs.centimeter), ("sys.imperial.pint", lambda: cp.sys.imperial.pint), ("group", lambda: cp.get_group("Textile")), ("system", lambda: cp.get_system("mks")),
-                        ("compat", lambda: next(iter(cp.get_compatible_units("meter")))), ("formatter", lambda: cp.formatter)):
+                        ("compat", lambda: next(iter(cp.get_compatible_units("meter")))), ("formatter", lambda: cp.formatter),
+                        ("Measurement", lambda: cp.Measurement(1.0, 0.1, "meter")), ("plus_minus", lambda: cp.Quantity(2.0, "meter").plus_minus(0.1)),
+                        ("parse_uncertainty", lambda: cp.parse_expression("(2.0 +/- 0.1) m")), ("Measurement.to", lambda: cp.Measurement(1.0, 0.1, "meter").to("cm")),
+                        ("Quantity.units", lambda: cp.Quantity(1, "meter").units), ("Quantity.to", lambda: cp.Quantity(1, "meter").to("inch")), ("Unit*Unit", lambda: cp.Unit("m") * cp.Unit("s"))):
             s, o = attempt(fn)
             if s == "err":
                 raise Violation(f"copy_object_raised:{tag}:{exc_class(o)}", f"{o!r}")
@@ -439,6 +442,15 @@ def case_deepcopy(case, col=None):
         s, r = attempt(lambda: cp.Quantity(2, "meter") * cp.sys.cgs.centimeter + cp.Quantity(1, "meter") * cp.Unit("cm"))
         if s == "err":
             raise Violation(f"copy_objects_do_not_combine:{exc_class(r)}", f"{r!r}")
+        s, r = attempt(lambda: (cp.Measurement(1.0, 0.1, "meter") + cp.Quantity(2.0, "meter"), cp.Quantity(2.0, "meter").plus_minus(0.1) * cp.Quantity(2.0, "second")))
+        if s == "err":
+            raise Violation(f"copy_objects_do_not_combine:Measurement:{exc_class(r)}", f"{r!r}")
+        # and never with the source's (all of them are registry-bound)
+        for tag, fn in (("Measurement+Quantity", lambda: cp.Measurement(1.0, 0.1, "meter") + src.Quantity(2.0, "meter")), ("Quantity*Unit", lambda: cp.Quantity(1.0, "meter") * src.Unit("second")),
+                        ("Measurement<Quantity", lambda: cp.Quantity(1.0, "meter").plus_minus(0.1) < src.Quantity(2.0, "meter"))):
+            s, r = attempt(fn)
+            if s == "ok" or not isinstance(r, ValueError):
+                raise Violation(f"copy_and_source_objects_combine:{tag}", f"{tag}: {'returned ' + repr(r) if s == 'ok' else repr(r)}")
     finally:
         logging.disable(logging.NOTSET)
 
